@@ -421,7 +421,13 @@ class ElementList(MutableSequence):
             list_index = self.list.index(old_child)
             by_name_index = self.indexes[old_child.name].index(old_child)
             self.remove(old_child)
-            self.insert(list_index, new_child, by_name_index)
+            try:
+                self.insert(list_index, new_child, by_name_index)
+            except Exception:
+                # the new child has been refused (e.g. different version or validation level): the old one stays
+                self.list.insert(list_index, old_child)
+                self.indexes[old_child.name].insert(by_name_index, old_child)
+                raise
 
     def create_element(self, name, traversal_parent=False, reference=None):
         """
